@@ -100,6 +100,35 @@ def run_e2e(args):
     return out
 
 
+def two_threads(a):
+    """(child) two Python threads, each reading its own split through its own Rust-backed iterator at the same time (a training
+    and a validation pipeline; tf.data's generator threads), several rounds; returns what each read."""
+    import threading
+    sp.sedpack(rust=True)
+    from sedpack.io import Dataset
+    root = Path(a["root"]); shutil.rmtree(root, ignore_errors=True)
+    ds = sp.mk(root, fmt="fb", comp=a["comp"], eps=a["eps"])
+    want = {"train": [], "test": []}
+    with ds.filler() as f:
+        for v in range(a["n"]):
+            s = "train" if v % 3 else "test"
+            f.write_example(values=sp.val(v), split=s); want[s].append(v)
+    ds = Dataset(root)
+    got = {"train": [], "test": []}
+    errs = []
+    def reader(split):
+        try:
+            for _ in range(a["rounds"]):
+                got[split].append([sp.ident(e) for e in ds.as_numpy_iterator_rust(split=split, repeat=False, shuffle=0, file_parallelism=a["T"])])
+        except BaseException as e:  # noqa: BLE001
+            errs.append(f"{split}: {type(e).__name__}: {str(e)[:120]}")
+    ths = [threading.Thread(target=reader, args=(s,)) for s in ("train", "test")]
+    for t in ths: t.start()
+    for t in ths: t.join()
+    shutil.rmtree(root, ignore_errors=True)
+    return {"want": want, "got": got, "errors": errs}
+
+
 FAULTS: list = []          # the PMAPFAULT lines of the last cargo_harness run (mapped function panicking on one item): used by C07
 
 
@@ -194,6 +223,22 @@ def run(ctx):
                     "cases": trace_bad[:3]}, name="corr-trace", nofail=True)
     ctx.cov["channel_traces_replayed"] = len(traces) - len([b for b in trace_bad if "case" in b])
     ctx.cov["channel_events_replayed"] = trace_events
+    # ---- two Python threads reading through the extension at the same time (each its own split and iterator)
+    ta = {"root": str(ctx.scratch / "c15_two_threads"), "comp": ["", "LZ4"][ctx.seed % 2], "eps": 2, "n": 240, "rounds": 3, "T": 2}
+    try:
+        tt = child.call("harness.checks.c15", "two_threads", ta, timeout=180)
+        for split in ("train", "test"):
+            bad = [g for g in tt["got"][split] if g != tt["want"][split]]
+            if tt["errors"] or bad or len(tt["got"][split]) != ta["rounds"]:
+                ctx.report({"kind": "two-threads", "level": "extension", "what": "values-or-error"},
+                           f"two Python threads reading {split!r} / the other split through the Rust reader at once: {tt['errors'][:2]} "
+                           f"{len(tt['got'][split])} of {ta['rounds']} passes completed, {len(bad)} differ from the Python reader's list", {"case": ta, "errors": tt["errors"]})
+                break
+    except child.ChildTimeout:
+        # (a normal run takes a few seconds; the interpreter of the child is frozen, so only the parent can tell)
+        ctx.report({"kind": "two-threads", "level": "extension", "what": "hang"},
+                   "two Python threads, each reading its own split through its own Rust-backed iterator, did not finish within 180 s (normally ~3 s): deadlock", {"case": ta})
+    ctx.cov["two_thread_passes"] = 2 * ta["rounds"]
     # ---- the extension vs the Python reader
     cases = []
     for i in range(ctx.pick(3, 8)):
